@@ -58,10 +58,19 @@ class Space:
         self.free = [bn.pop() for _ in range(nfree)]
         self.fixed = [bn.pop() for _ in range(nfixed)]
         self.betas = {}
+        used = set()
+
+        def val():
+            while True:
+                v = round(r.uniform(-1.5, 1.5), 3)
+                if v != 0 and v not in used:  # distinct values: an index mix-up must be visible
+                    used.add(v)
+                    return v
+
         for b in self.free:
-            self.betas[b] = [round(r.uniform(-1.5, 1.5), 3) or 0.5, 0]
+            self.betas[b] = [val(), 0]
         for b in self.fixed:
-            self.betas[b] = [round(r.uniform(-1.5, 1.5), 3) or 0.5, 1]
+            self.betas[b] = [val(), 1]
 
     def beta_values(self):
         return {k: v[0] for k, v in self.betas.items()}
@@ -301,8 +310,13 @@ def make_case(seed: int, index: int, differentiable=False, force=None, max_depth
         ast = forced_tree(g, parent, slot, child)
     else:
         ast = g.real(g.max_depth)
+    extra = []
+    for _ in range(kw.get('extra', 0)):
+        g.nodes = 0
+        extra.append(g.real(rng.randint(1, 4)))
     return {
         'ast': ast,
+        'extra_asts': extra,
         'shared': g.shared,
         'data': sp.data,
         'betas': sp.betas,
